@@ -48,8 +48,8 @@ TRUSTED = [
     "assignment res[:] = res.transpose(..) is overlap safe (contract)",
 ]
 RULE = ("groups generated from 1-3 random generators (optionally combined with time reversal, optionally plus pure TR) "
-        "drawn from cubic (P, F, I lattices), tetragonal (P, I), orthorhombic (P, C), hexagonal and rhombohedral "
-        "operation pools; tensors of rank 0-4 with Gaussian-integer entries; Transform pairs from factor x conj x "
+        "drawn from cubic (P, F, I lattices), tetragonal (P, I), orthorhombic (P, C), monoclinic, hexagonal and rhombohedral "
+        "operation pools, 30 % of them on a non-reduced (oblique) description U.A of the cell; tensors of rank 0-4 with Gaussian-integer entries; Transform pairs from factor x conj x "
         "transposition; k-points with denominators 2,3,4,6,8 including symmetry planes and zone faces. non-trivial = group "
         "order >= 4 (group level) or rank >= 1 with a non-identity element (tensor level); distinct = distinct protocol "
         "line / distinct (group, element pair, rank, transforms, data hash)")
@@ -103,6 +103,7 @@ POOLS = {
     "ortho": ["C2z", "C2x", "C2y", "I", "IC2z", "IC2x", "IC2y"],
     "hex": ["C6z", "C3z", "C2z", "C2x", "C2y", "I", "Mz", "Mx", "My"],
     "rhombo": ["C3z", "C2y", "I", "My"],
+    "mono": ["C2z", "I", "IC2z"],
 }
 
 
@@ -128,6 +129,8 @@ def lattices(rng, family):
             ("oP", [[a, 0, 0], [0, b, 0], [0, 0, c]]),
             ("oC", [[a * h, -b * h, 0], [a * h, b * h, 0], [0, 0, c]]),
         ])
+    if family == "mono":
+        return ("mP", [[a, 0, 0], [b * Fr(1, 4), b, 0], [0, 0, c]])
     if family == "hex":
         af, cf = float(a), float(c)
         return ("hP", [[af, 0, 0], [-af / 2, af * SQ3 / 2, 0], [0, 0, cf]],
@@ -179,19 +182,30 @@ def ratss_m(ms):
 class Family:
     """a lattice + a way to go between Cartesian floats (the code) and exact model coordinates"""
 
-    def __init__(self, rng, family):
+    def __init__(self, rng, family, oblique=False):
+        """oblique=True: the same lattice described by a non-reduced primitive cell U @ A (U a random integer matrix of
+        determinant 1); the group and all Cartesian objects are unchanged, the reduced matrices become sheared."""
         self.family = family
         lat = lattices(rng, family)
-        self.name = lat[0]
+        self.name = lat[0] + ("-oblique" if oblique else "")
         self.exact = family not in ("hex", "rhombo")
-        self.A = np.array([[float(x) for x in r] for r in lat[1]])          # real lattice (rows), floats
+        self.U = fmat(I3)
+        if oblique:
+            while self.U == fmat(I3):
+                for _ in range(rng.choice([1, 1, 2, 3])):
+                    i, j = rng.sample(range(3), 2)
+                    E = fmat(I3)
+                    E[i][j] = Fr(rng.choice([1, -1, 1, -1, 2, -2]))
+                    self.U = fmul(E, self.U)
+        Uf = np.array([[float(x) for x in r] for r in self.U])
+        self.A = Uf @ np.array([[float(x) for x in r] for r in lat[1]])      # real lattice (rows), floats
         if self.exact:
-            self.Aex = fmat(lat[1])
+            self.Aex = fmul(self.U, fmat(lat[1]))
             self.basis_real = self.Aex                                        # model coordinates = Cartesian
             self.basis_recip = ftrans(finv(self.Aex))                         # B / 2 pi  (the factor cancels)
             self.T = np.eye(3)                                                # v_cart = T y
         else:
-            G = fmat(lat[2])
+            G = fmul(fmul(self.U, fmat(lat[2])), ftrans(self.U))
             assert np.abs(np.array([[float(x) for x in r] for r in G]) - self.A @ self.A.T).max() < 1e-12
             self.basis_real = fmat(I3)                                        # model coordinates = lattice coordinates
             self.basis_recip = finv(G)
@@ -202,6 +216,11 @@ class Family:
 
     def cart(self, opname):
         return np.array(self.ops[opname], dtype=float)
+
+    def conv_to_cell(self, s):
+        """reduced coordinates w.r.t. the conventional cell -> reduced coordinates w.r.t. this (possibly oblique) cell"""
+        Ui = finv(self.U)
+        return tuple(sum(Fr(s[i]) * Ui[i][j] for i in range(3)) for j in range(3))
 
     def to_model(self, Rcart):
         """exact matrix of a Cartesian operation in model coordinates"""
@@ -300,7 +319,7 @@ def pick_generators(rng, ig, famname, max_order, n_curated):
         fam = Family(rng, famname)
         gens = [(tuple(flat(fam.to_model(fam.cart(nm)))), tr) for nm, tr in zip(names, trs)]
         return fam, famname, list(names), list(trs), gens, ref_closure(gens)
-    fam = Family(rng, famname)
+    fam = Family(rng, famname, oblique=rng.random() < 0.3)
     names, trs, gens, cl = random_generators(rng, fam, max_order)
     return fam, famname, names, trs, gens, cl
 
@@ -1024,10 +1043,10 @@ def oracle_special(ctx, scale):
 
 def oracle(ctx, scale):
     rng = ctx.rng
-    fam_names = ["cubic", "tetra", "ortho", "hex", "rhombo"]
+    fam_names = ["cubic", "tetra", "ortho", "hex", "rhombo", "mono"]
     ngroups = ctx.n(12, 60) * scale
     for ig in range(ngroups):
-        famname = fam_names[ig % 5] if ig < 5 else rng.choice(fam_names)
+        famname = fam_names[ig % 6] if ig < 6 else rng.choice(fam_names)
         max_order = 96 if ig % 7 == 3 else 48
         fam, famname, names, trs, gens, cl = pick_generators(rng, ig, famname, max_order,
                                                              ctx.n(5, 6) if not ctx.searching else 0)
